@@ -73,6 +73,12 @@ func (ch *dagChannel) load(c channel) error {
 
 func (ch *dagChannel) reportValues(ins map[string]any) error {
 	if ch.Skipped {
+		// a skipped node never consumes what it is sent: release the streams
+		for _, v := range ins {
+			if sr, ok := v.(streamReader); ok {
+				sr.close()
+			}
+		}
 		return nil
 	}
 
